@@ -128,3 +128,310 @@ def index_groups_exhaustive(vc):
                 bad = vals
     vc.inputs["arrays_enumerated"] = total
     vc.ensures("groups_partition_positions_by_value", bad is None and total > 5000)
+
+
+# ================================================================================================
+# proof layer
+# ================================================================================================
+import z3
+from pyvc import sym as S
+from pyvc.sym import Sym, Unsupported
+from pyvc.tensor import Tensor, SymList
+
+KDE = "inference.pdf.kde"
+
+
+def _build(vc):
+    """the real GaussianKDE.__init__ on an arbitrary sample (N >= 3, not all equal) with a user bandwidth h > 0; the mode
+    search is replaced by its frame contract (it only reads the object)"""
+    N = vc.int("N", lo=3)
+    raw = vc.vector("sample", N)
+    h = vc.real("h", pos=True)
+    vc.modular("GaussianKDE.locate_mode", lambda I, func, args, kwargs: vc.fresh_real("mode"))
+    kde = vc.new(KDE, "GaussianKDE", raw, bandwidth=h)
+    s = vc.attr(kde, "sample")
+    return N, raw, h, kde, s
+
+
+@contract("C12", "construction", native=False, replay_with="kde_native")
+def construction(vc):
+    """constants, region count, region midpoints, slice bounds and CDF offsets of a GaussianKDE"""
+    N, raw, h, kde, s = _build(vc)
+    s0, sl = s.at(0), s.at(N - 1)
+    vc.ensures_forall("sample_is_sorted", (N, N), lambda i, j: S.Implies(S.cmp("<=", i, j), S.cmp("<=", s.at(i), s.at(j))))
+    vc.ensures("normalisation", S.cmp("==", S.mul(vc.attr(kde, "norm"), S.mul(S.mul(N, vc.sqrt(S.mul(2, vc.pi))), h)), 1))
+    vc.ensures("cutoff_is_four_bandwidths", S.cmp("==", vc.attr(kde, "cutoff"), S.mul(4, h)))
+    vc.ensures("erf_scale", S.cmp("==", S.mul(vc.attr(kde, "q"), S.mul(vc.sqrt(2), h)), 1))
+    vc.ensures("integration_limits", S.And(S.cmp("==", vc.attr(kde, "lwr_limit"), S.sub(s0, S.mul(2, h))),
+                                           S.cmp("==", vc.attr(kde, "upr_limit"), S.add(sl, S.mul(2, h)))))
+    tree = vc.attr(kde, "tree")
+    n_layers = vc.attr(tree, "n")
+    edges = vc.attr(tree, "edges")
+    R = S.sub(edges.shape[0], 1)                     # number of regions = 2**n
+    vc.ensures("at_least_one_region", S.And(S.cmp(">=", n_layers, 0), S.cmp(">=", R, 1)))
+    # THE region-width lemma: regions are no wider than the bandwidth.  n = max(int(log2(range/h)) + 1, 0) > log2(range/h)
+    rng_ = S.sub(sl, s0)
+    vc.assume(S.cmp(">", rng_, 0))                   # at least two distinct values (quantifier of the property)
+    x = S.div(vc.log(S.div(rng_, h)), vc.log(2))
+    vc.assume_lemma("log 2 > 0", S.cmp(">", vc.log(2), 0))
+    vc.lemma("layers_exceed_log2_of_range_over_bandwidth", S.cmp(">", n_layers, x))
+    vc.assume_lemma("t -> 2^t is increasing and 2^(log u / log 2) = u:  n > log2(u) implies 2^n > u",
+                    S.Implies(S.cmp(">", n_layers, x), S.cmp(">", S.mul(S.power(2, n_layers), 1.0), S.div(rng_, h))))
+    vc.ensures("regions_no_wider_than_bandwidth", S.cmp("<=", rng_, S.mul(h, R)))
+    # midpoints, slices, offsets
+    slices = vc.attr(kde, "slices")
+    offs = vc.attr(kde, "cdf_offsets")
+    w = S.div(rng_, R)
+    r = vc.index("r", R)
+    mid = S.add(s0, S.mul(S.add(r, S.div(1, 2)), w))
+    sl_r = slices.at(r) if isinstance(slices, SymList) else slices[r]
+    lo, hi = sl_r.start, sl_r.stop
+    vc.ensures("one_slice_and_offset_per_region", S.And(S.cmp("==", slices.length() if isinstance(slices, SymList) else len(slices), R),
+                                                       S.cmp("==", offs.shape[0], R)))
+    vc.ensures("slice_bounds_in_range", S.And(S.cmp("<=", 0, lo), S.cmp("<=", lo, N), S.cmp("<=", 0, hi), S.cmp("<=", hi, N)))
+    j = vc.index("j", N)
+    vc.ensures("samples_left_of_the_slice_are_beyond_the_cutoff", S.Implies(S.cmp("<", j, lo), S.cmp("<", s.at(j), S.sub(mid, S.mul(4, h)))))
+    vc.ensures("samples_in_the_slice_are_within_the_cutoff",
+               S.Implies(S.And(S.cmp(">=", j, lo), S.cmp("<", j, hi)),
+                         S.And(S.cmp(">=", s.at(j), S.sub(mid, S.mul(4, h))), S.cmp("<", s.at(j), S.add(mid, S.mul(4, h))))))
+    vc.ensures("samples_right_of_the_slice_are_beyond_the_cutoff", S.Implies(S.cmp(">=", j, hi), S.cmp(">=", s.at(j), S.add(mid, S.mul(4, h)))))
+    vc.ensures("cdf_offset_counts_the_samples_left_of_the_slice", S.cmp("==", S.mul(offs.at(r), N), lo))
+    # look-up table of the tree: position p of `edges` order -> region
+    regs = vc.attr(tree, "regions")
+    vc.ensures("lookup_table_length", S.cmp("==", regs.shape[0], S.add(R, 2)))
+    p = vc.index("p", S.add(R, 2))
+    want = S.ite(S.cmp("==", p, 0), 0, S.ite(S.cmp("==", p, S.add(R, 1)), S.sub(R, 1), S.sub(p, 1)))
+    vc.ensures("lookup_table_maps_edge_position_to_region", S.cmp("==", regs.at(p), want))
+    e = vc.index("e", S.add(R, 1))
+    vc.ensures("edges_are_equally_spaced_over_the_sample_range", S.cmp("==", edges.at(e), S.add(s0, S.mul(e, w))))
+
+
+@contract("C12", "region_lookup", native=False, replay_with="kde_native")
+def region_lookup(vc):
+    """BinaryTree.region_groups: every value is sent to the region that contains it (values outside the range to the
+    nearest end region); the grouping itself is unique_index_groups (contract: a partition of the positions by value,
+    checked exhaustively for small arrays in the bounded layer)"""
+    n = vc.int("layers", lo=0)
+    a = vc.real("lower")
+    width = vc.real("width", pos=True)
+    b = S.add(a, width)
+    tree = vc.new(KDE, "BinaryTree", n, (a, b))
+    m = vc.int("m", lo=1)
+    v = vc.vector("values", m)
+    got = []
+    vc.modular("unique_index_groups", lambda I, f, args, kw: (got.append(args[0]), ("unique", "groups"))[1])
+    res = vc.call(tree, "region_groups", v)
+    vc.ensures("grouping_is_unique_index_groups_of_the_region_indices", len(got) == 1 and res == ("unique", "groups"))
+    ri = got[0]
+    edges = vc.attr(tree, "edges")
+    R = S.sub(edges.shape[0], 1)
+    w = S.div(width, R)
+    t = vc.index("t", m)
+    r, x = ri.at(t), v.at(t)
+    vc.ensures("one_region_index_per_value", vc.ndim(ri) == 1 and S.cmp("==", ri.shape[0], m))
+    vc.ensures("region_index_in_range", S.And(S.cmp(">=", r, 0), S.cmp("<", r, R)))
+    vc.ensures("value_inside_its_region", S.Implies(S.And(S.cmp(">=", x, a), S.cmp("<=", x, b)),
+                                                   S.And(S.cmp("<=", S.add(a, S.mul(r, w)), x), S.cmp("<=", x, S.add(a, S.mul(S.add(r, 1), w))))))
+    vc.ensures("values_below_the_range_use_the_first_region", S.Implies(S.cmp("<", x, a), S.cmp("==", r, 0)))
+    vc.ensures("values_above_the_range_use_the_last_region", S.Implies(S.cmp(">", x, b), S.cmp("==", r, S.sub(R, 1))))
+
+
+class KdeState:
+    """a constructed GaussianKDE described by the post-conditions of `construction` (modular use of that contract) and a
+    tree whose region_groups obeys `region_lookup` + the partition contract of unique_index_groups"""
+
+    def __init__(self, vc):
+        self.vc = vc
+        c = vc.c
+        self.N = vc.int("N", lo=3)
+        self.R = vc.int("R", lo=1)
+        self.m = vc.int("m", lo=1)
+        self.G = vc.int("n_groups", lo=1)
+        N, R, m, G = self.N, self.R, self.m, self.G
+        self.s = vc.vector("s", N, origin="state")
+        vc.assume_forall((N, N), lambda i, j: S.Implies(S.cmp("<=", i, j), S.cmp("<=", self.s.at(i), self.s.at(j))))
+        self.h = vc.real("h", pos=True)
+        self.q = vc.real("q", pos=True)
+        self.norm = vc.real("norm", pos=True)
+        I_ = z3.IntSort()
+        LO, HI = z3.Function("LO", I_, I_), z3.Function("HI", I_, I_)
+        self.LO, self.HI = LO, HI
+        c.add_forall((R,), lambda r: z3.And(LO(S.z(r)) >= 0, LO(S.z(r)) <= HI(S.z(r)), HI(S.z(r)) <= S.z(N)), "slice-bounds")
+        def slice_of(r):
+            c.add_index_term(S.z(r), R)          # the bounds facts are wanted at every region actually used
+            return slice(Sym(LO(S.z(r))), Sym(HI(S.z(r))))
+
+        self.slices = SymList(R, slice_of)
+        self.offsets = Tensor((R,), lambda r: S.div(Sym(LO(S.z(r))), N), origin="state:cdf_offsets")
+        # groups: a partition of the positions 0..m-1; group k serves region U(k)
+        U, GL = z3.Function("U", I_, I_), z3.Function("GL", I_, I_)
+        GI = z3.Function("GI", I_, I_, I_)
+        grp, pos = z3.Function("grp", I_, I_), z3.Function("pos", I_, I_)
+        self.U, self.GL, self.GI, self.grp, self.pos = U, GL, GI, grp, pos
+        c.add_forall((G,), lambda k: z3.And(U(S.z(k)) >= 0, U(S.z(k)) < S.z(R), GL(S.z(k)) >= 1), "groups")
+        c.add_forall((m,), lambda t: z3.And(grp(S.z(t)) >= 0, grp(S.z(t)) < S.z(G), pos(S.z(t)) >= 0,
+                                            pos(S.z(t)) < GL(grp(S.z(t))), GI(grp(S.z(t)), pos(S.z(t))) == S.z(t)), "partition")
+        self.x = vc.vector("x", m, origin="input")
+        st = self
+
+        def group(k):
+            kz = S.z(k)
+            g = Tensor((Sym(GL(kz)),), lambda a_: Sym(GI(kz, S.z(a_))), dtype="int")
+            # membership of a position in this group (inverse of the index list): used by assignments through it
+            g.member = lambda i: (Sym(grp(S.z(i)) == kz), Sym(pos(S.z(i))))
+            g.group_of = kz
+            return g
+
+        class Tree:
+            def get_attr(self, I, name):
+                return getattr(self, name)
+
+            def region_groups(self, values):
+                st.asked = values
+                return (Tensor((G,), lambda k: Sym(U(S.z(k))), dtype="int"), SymList(G, group))
+
+        self.tree = Tree()
+        self.kde = vc.obj(KDE, "GaussianKDE", sample=self.s, slices=self.slices, cdf_offsets=self.offsets, tree=self.tree,
+                          norm=self.norm, q=self.q, h=self.h)
+
+    def region_of(self, t):
+        return Sym(self.U(self.grp(S.z(t))))
+
+    def kernel_sum(self, t, term):
+        """sum over the samples of the slice of t's region"""
+        r = S.z(self.region_of(t))
+        lo, hi = Sym(self.LO(r)), Sym(self.HI(r))
+        return self.vc.sum(S.sub(hi, lo), lambda j: term(S.sub(self.x.at(t), self.s.at(S.add(lo, j)))))
+
+
+from pyvc.loops import LoopSpec
+
+
+class Regions(LoopSpec):
+    """invariant: positions of the groups already processed hold their kernel sum, the others are still zero"""
+    name = "regions"
+
+    def __init__(self, vc, st, acc, value):
+        super().__init__(vc)
+        self.st, self.acc, self.value = st, acc, value
+        self.keep_locals = (acc,)
+
+    def havoc(self, I, fr, k):
+        st = self.st
+        f = z3.Function(str(ctx_fresh("acc")), z3.IntSort(), z3.RealSort())
+        fr.locals[self.acc] = Tensor((st.m,), lambda t: Sym(f(S.z(t))))
+
+    def _inv(self, fr, k, t, acc=None):
+        st = self.st
+        cur = (acc if acc is not None else fr.locals[self.acc]).at(t)
+        done = Sym(st.grp(S.z(t)) < S.z(k))
+        return S.And(S.Implies(done, S.cmp("==", cur, self.value(t))), S.Implies(S.Not(done), S.cmp("==", cur, 0)))
+
+    def assume_inv(self, I, fr, k):
+        st = self.st
+        acc = fr.locals[self.acc].frozen()          # the array as it is NOW (the closure is instantiated lazily)
+        ctx_().add_forall((st.m,), lambda t: S.z(self._inv(fr, k, Sym(t) if not isinstance(t, (int, Sym)) else t, acc)), "regions-inv")
+
+    def oblige_inv(self, what, I, fr, k):
+        st = self.st
+        cur = fr.locals[self.acc]
+        g = lambda t: Sym(st.grp(S.z(t)))
+        self.vc.ensures_forall(f"{self.name}.{what}.earlier_groups_hold_their_kernel_sum", st.m,
+                               lambda t: S.cmp("==", cur.at(t), self.value(t)), assuming=lambda t: S.cmp("<", g(t), S.sub(k, 1)))
+        self.vc.ensures_forall(f"{self.name}.{what}.latest_group_holds_its_kernel_sum", st.m,
+                               lambda t: S.cmp("==", cur.at(t), self.value(t)), assuming=lambda t: S.cmp("==", g(t), S.sub(k, 1)))
+        self.vc.ensures_forall(f"{self.name}.{what}.other_positions_still_zero", st.m,
+                               lambda t: S.cmp("==", cur.at(t), 0), assuming=lambda t: S.cmp(">=", g(t), k))
+
+
+def ctx_():
+    from pyvc.sym import ctx
+    return ctx()
+
+
+def ctx_fresh(stem):
+    return ctx_().fresh(stem, "Int")
+
+
+def _acc_name(func):
+    import ast
+    for n in ast.walk(func.node):
+        if isinstance(n, ast.Assign) and isinstance(n.value, ast.Call) and ast.unparse(n.value.func) == "zeros" \
+                and isinstance(n.targets[0], ast.Name):
+            return n.targets[0].id
+    raise Unsupported("accumulator array not found")
+
+
+@contract("C12", "density_evaluation", native=False, replay_with="kde_native")
+def density_evaluation(vc):
+    """__call__(x): entry t is norm * sum over the slice of t's region of exp(-((x_t - s_j) q)^2)"""
+    vc.c.numeric_filter = "float"
+    vc.c.sigma_merge = "structural"
+    st = KdeState(vc)
+    func = vc.I.get_function(KDE, "GaussianKDE.__call__")
+    term = lambda dx: vc.exp(S.sub(0, S.mul(S.mul(dx, st.q), S.mul(dx, st.q))))
+    val = lambda t: st.kernel_sum(t, term)
+    vc.loop("GaussianKDE.__call__", "for#0", Regions(vc, st, _acc_name(func), val))
+    vc.assume(S.cmp(">=", st.m, 2))
+    out = vc.call(st.kde, "__call__", st.x)
+    vc.ensures("regions_looked_up_for_the_evaluation_points", getattr(st, "asked", None) is not None)
+    vc.ensures_forall("looked_up_points_are_the_arguments", st.m, lambda t: S.cmp("==", st.asked.at(t), st.x.at(t)))
+    vc.ensures("one_density_per_point", vc.ndim(out) == 1 and S.cmp("==", out.shape[0], st.m))
+    vc.ensures_forall("density_is_normalised_truncated_kernel_sum", st.m, lambda t: S.cmp("==", out.at(t), S.mul(st.norm, val(t))))
+    vc.ensures("sample_not_modified", len(vc.writes_to_inputs()) == 0)
+
+
+@contract("C12", "cdf_evaluation", native=False, replay_with="kde_native")
+def cdf_evaluation(vc):
+    """cdf(x): entry t is (number of samples left of the slice)/N + (1/2N) sum over the slice of 1 + erf((x_t - s_j) q)"""
+    from pyvc import npmodel as N_
+    vc.c.numeric_filter = "float"
+    vc.c.sigma_merge = "structural"
+    st = KdeState(vc)
+    func = vc.I.get_function(KDE, "GaussianKDE.cdf")
+    term = lambda dx: S.add(1, N_.sp_erf(S.mul(dx, st.q)))
+    val = lambda t: S.add(S.mul(S.div(S.div(1, 2), st.N), st.kernel_sum(t, term)),
+                          st.offsets.at(st.region_of(t)))
+    vc.loop("GaussianKDE.cdf", "for#0", Regions(vc, st, _acc_name(func), val))
+    vc.assume(S.cmp(">=", st.m, 2))
+    out = vc.call(st.kde, "cdf", st.x)
+    vc.ensures_forall("looked_up_points_are_the_arguments", st.m, lambda t: S.cmp("==", st.asked.at(t), st.x.at(t)))
+    vc.ensures("one_value_per_point", vc.ndim(out) == 1 and S.cmp("==", out.shape[0], st.m))
+    vc.ensures_forall("cdf_is_offset_plus_truncated_erf_sum", st.m, lambda t: S.cmp("==", out.at(t), val(t)))
+
+
+@contract("C12", "truncation_theorem", native=False, replay_with="kde_native")
+def truncation_theorem(vc):
+    """composition of the contracts above (no code): for an evaluation point x served by region r, every sample outside
+    the slice of r is at least 3.5 bandwidths away from x, on the side the CDF offset assumes.  Hence
+    0 <= exact KDE - returned density <= phi(3.5)/h and |exact CDF - returned CDF| <= Phi(-3.5)  (each omitted kernel
+    contributes at most exp(-3.5^2/2)/(N h sqrt(2 pi)) resp. Phi(-3.5)/N: monotonicity of the Gaussian tail, assumed)"""
+    N = vc.int("N", lo=3)
+    s = vc.vector("s", N)
+    vc.assume_forall((N, N), lambda i, j: S.Implies(S.cmp("<=", i, j), S.cmp("<=", s.at(i), s.at(j))))
+    h = vc.real("h", pos=True)
+    R = vc.int("R", lo=1)
+    s0, sl = s.at(0), s.at(N - 1)
+    rng_ = S.sub(sl, s0)
+    vc.assume(S.cmp(">", rng_, 0))
+    w = S.div(rng_, R)
+    # post-conditions of `construction`
+    vc.assume(S.cmp("<=", rng_, S.mul(h, R)))                                   # regions_no_wider_than_bandwidth
+    r = vc.int("r", lo=0)
+    vc.assume(S.cmp("<", r, R))
+    mid = S.add(s0, S.mul(S.add(r, S.div(1, 2)), w))
+    lo, hi = vc.int("lo", lo=0), vc.int("hi", lo=0)
+    vc.assume(S.And(S.cmp("<=", lo, hi), S.cmp("<=", hi, N)))
+    vc.assume_forall(N, lambda j: S.And(S.Implies(S.cmp("<", j, lo), S.cmp("<", s.at(j), S.sub(mid, S.mul(4, h)))),
+                                        S.Implies(S.cmp(">=", j, hi), S.cmp(">=", s.at(j), S.add(mid, S.mul(4, h))))))
+    # post-conditions of `region_lookup` for the point x
+    x = vc.real("x")
+    a_, b_ = s0, sl
+    vc.assume(S.Implies(S.And(S.cmp(">=", x, a_), S.cmp("<=", x, b_)),
+                        S.And(S.cmp("<=", S.add(a_, S.mul(r, w)), x), S.cmp("<=", x, S.add(a_, S.mul(S.add(r, 1), w))))))
+    vc.assume(S.Implies(S.cmp("<", x, a_), S.cmp("==", r, 0)))
+    vc.assume(S.Implies(S.cmp(">", x, b_), S.cmp("==", r, S.sub(R, 1))))
+    j = vc.index("j", N)
+    c35 = S.mul(S.div(7, 2), h)
+    vc.ensures("samples_left_of_the_slice_are_at_least_3.5h_below_x", S.Implies(S.cmp("<", j, lo), S.cmp(">=", S.sub(x, s.at(j)), c35)))
+    vc.ensures("samples_right_of_the_slice_are_at_least_3.5h_above_x", S.Implies(S.cmp(">=", j, hi), S.cmp(">=", S.sub(s.at(j), x), c35)))
